@@ -395,6 +395,10 @@ impl<'a> Gen<'a> {
             // names that are magic only for the element-level traits are ordinary fields here
             names.extend(["default", "ident", "attrs", "data", "vis", "ty", "generics", "bounds", "fields", "discriminant"]);
         }
+        if self.profile.hostile_names && tr == Trait::Attributes {
+            // FromAttributes passes no element parts on: every name is an ordinary field name there
+            names.extend(["ident", "vis", "generics", "data", "ty"]);
+        }
         self.rng.shuffle(&mut names);
         let mut out: Vec<Field> = vec![];
         let opts = self.profile.options;
